@@ -77,6 +77,40 @@ def resolver_precondition(program, rep: Report) -> None:
                                    f"calls resolved to {m.fq} may reach another callable")
 
 
+def descriptor_precondition(program, rep: Report) -> None:
+    """The engine models `self.x` as a plain attribute cell. A class attribute that is an instance of a repository class defining
+    `__set__` / `__delete__` (a DATA descriptor) makes every read and write of `self.x` run that class's code instead, which
+    the path analyses do not see. A check that analysed methods of such a class is not entitled to a verdict about them: its
+    violations in those methods are withdrawn and the check fails closed (UNDECIDED). (cached_property is a non-data descriptor
+    that the checks know; there is no data descriptor on the pinned tree.)"""
+    import ast as _ast
+
+    from sa.loader import ClassInfo
+
+    desc_classes = {}
+    for m in program.modules.values():
+        for c in m.classes.values():
+            if any(n in dict.keys(c.methods) for n in ("__set__", "__delete__")):
+                desc_classes[c.name] = c
+    if not desc_classes:
+        return
+    hit = []
+    for m in program.modules.values():
+        for c in m.classes.values():
+            for an, ex in c.attrs.items():
+                if isinstance(ex, _ast.Call) and isinstance(ex.func, (_ast.Name, _ast.Attribute)) and _ast.unparse(ex.func).split(".")[-1] in desc_classes:
+                    family = [c] + program.subclasses(c)
+                    fqs = {f.fq for k in family for f in dict.values(k.methods)} | {f.fq for k in family for f in dict.values(k.methods) for f in f.nested.values()}
+                    if fqs & set(rep.functions):
+                        hit.append((c, an, _ast.unparse(ex.func).split(".")[-1], fqs))
+    for c, an, dn, fqs in hit:
+        withdrawn = [v for v in rep.violations if any(v.construct.startswith(fq + " ::") or v.construct.startswith(fq + ".") for fq in fqs)]
+        for v in withdrawn:
+            rep.violations.remove(v)
+        rep.undecide("engine", f"{c.fq}.{an} is a data descriptor ({dn} defines __set__/__delete__): reads and writes of self.{an} run code the path analyses do not model"
+                     + (f"; {len(withdrawn)} finding(s) in methods of {c.name} withdrawn" if withdrawn else ""))
+
+
 def main(argv=None) -> int:
     ap = argparse.ArgumentParser()
     ap.add_argument("prop")
@@ -100,6 +134,7 @@ def main(argv=None) -> int:
             flow.Client.max_inline_depth = max(flow.Client.max_inline_depth, 6)
         mod.run(program, rep, args.tier)
         resolver_precondition(program, rep)
+        descriptor_precondition(program, rep)
         if args.tier == "thorough":
             if hasattr(mod, "run_thorough"):
                 mod.run_thorough(program, rep)
